@@ -270,7 +270,7 @@ def check_xmap(prog, rep):
         sts = [dump(n.value) for n in ast.walk(f.node) if isinstance(n, ast.Assign) and isinstance(n.value, ast.IfExp) and "len(l)" in dump(n.value.test)]
         if sts != [start]:
             rep.violate("R3-xmap", f.qualname, "each level starts at %s, expected %s (%s parents)" % (sts, start, "repeated" if name == "triuix" else "distinct"), where(f), start, str(sts))
-        elif "len(l) == k - 1" in txt and len(re.findall(r"for \w+ in range\(\w+, n\)", txt)) == 2 and "yield list(l)" in txt and "yield from recurse(l, n, k)" in txt and "yield from recurse([], n, k)" in txt:
+        elif ("len(l) == k - 1" in txt or "k - 1 == len(l)" in txt) and len(re.findall(r"for \w+ in range\(\w+, n\)", txt)) == 2 and "yield list(l)" in txt and "yield from recurse(l, n, k)" in txt and "yield from recurse([], n, k)" in txt:
             rep.ok("R3-xmap", f.qualname, "k nested levels over range(st, n), level start %s" % start)
         else:
             rep.unrec("R3-xmap", f.qualname, "generator body not in the modelled form")
